@@ -401,4 +401,62 @@ theorem lookup_line_spec (pre post : List Stmt) (s : Stmt) (src : List Char) (t 
           simp only [List.getElem?_replicate]
           split <;> rfl
 
+/-- the final per-line vector of pass 1 and its relation to `lookup_line` (no split of the program needed) -/
+theorem final_vector (prog : List Stmt) (src : List Char) (t : SymTab) (h : pass1 prog (some src) = .ok t)
+    (hl : LinesFrom (SourceInfo.ofText src) (SourceInfo.ofText src).countLines 0 prog) :
+    ∃ lsf stf, prog.foldlM pass1Step (p1Init (some src)) = .ok stf ∧ stf.lines = some (lsf, SourceInfo.ofText src) ∧
+      (∀ k, t.lookupLine k = (lsf[k]?).join) ∧
+      (∀ k, (∀ x ∈ prog, (SourceInfo.ofText src).getLine x.span.1 ≠ k) → (lsf[k]?).join = none) ∧
+      (∃ m, t.debug = some ⟨m, SourceInfo.ofText src⟩ ∧ Chained m 0) := by
+  generalize hsi : SourceInfo.ofText src = si at *
+  have hN : 0 < si.countLines := by rw [← hsi]; simp [SourceInfo.ofText, SourceInfo.countLines]
+  unfold pass1 at h
+  cases hf : prog.foldlM pass1Step (p1Init (some src)) with
+  | error e => rw [hf] at h; cases h
+  | ok stf =>
+    rw [hf] at h
+    dsimp only at h
+    have hinit : LInv si (p1Init (some src)) (List.replicate si.countLines none) 0 := by rw [← hsi]; exact p1Init_linv src
+    have hlen0 : (List.replicate si.countLines (none : Option W)).length = si.countLines := by simp
+    obtain ⟨lsf, Lf, c1, _, c3, _, _, c6, c7⟩ := linv_fold si prog [] _ stf _ 0 hinit (by rw [hlen0]; simpa using hl) hf
+    unfold p1Finish at h
+    cases hcur : stf.cursor with
+    | some c => rw [hcur] at h; cases h
+    | none =>
+      rw [hcur] at h
+      dsimp only at h
+      rw [c1.lines] at h
+      injection h with h
+      have hlenf : lsf.length = si.countLines := by rw [c3, hlen0]
+      have hends : EndsNone lsf := by
+        right
+        rw [List.getLast?_eq_getElem?]
+        by_cases hk : Lf ≤ lsf.length - 1
+        · exact c1.empty _ hk (by omega)
+        · have hidx : lsf.length - 1 < lsf.length := by omega
+          cases hv : lsf[lsf.length - 1]? with
+          | none => rw [List.getElem?_eq_none_iff] at hv; omega
+          | some o =>
+            cases o with
+            | none => rfl
+            | some a =>
+              have hL : Lf - 1 = lsf.length - 1 ∨ Lf - 1 ≠ lsf.length - 1 := by omega
+              rcases hL with hL | hL
+              · obtain ⟨cur, hc, _⟩ := c1.last a (by omega) (by rw [hL]; exact hv)
+                rw [hcur] at hc; cases hc
+              · exfalso
+                have := c7 (by omega)
+                rw [hlen0] at this
+                omega
+      obtain ⟨m, hm1, hm2, _, hm4⟩ := lineMap_new_spec lsf hends (asc_of_ascP _ c1.asc)
+      refine ⟨lsf, stf, rfl, c1.lines, fun k => ?_, fun k hk => ?_, ⟨m, ?_, hm4⟩⟩
+      · rw [← h]
+        simp only [SymTab.lookupLine, hm1, Option.getD_some, Option.bind_some]
+        exact hm2 k
+      · rw [c6 k hk]
+        simp only [List.getElem?_replicate]
+        split <;> rfl
+      · rw [← h]
+        simp only [hm1, Option.getD_some]
+
 end Lc3V
